@@ -146,16 +146,15 @@ def answer (cfg : Cfg) (d : Nat) (raw : Bytes) : J :=
   match parseEthernet cfg d raw with
   | .error e => J.mk ([("exc", J.str e.toString)] ++ knownJ e)
   | .ok f =>
-    if f.hasForeign then
-      J.mk [("chain", J.arr (chainJ f)), ("foreign", J.bool true), ("pack", J.null), ("print", J.null)]
-    else
-      let pk := match packF none f with
-        | .ok b => J.ofBytes b
-        | .error e => excJ e.toString
-      let pr := match printF cfg f with
-        | .ok _ => J.str "ok"
-        | .error e => excJ e.toString
-      J.mk [("chain", J.arr (chainJ f)), ("foreign", J.bool false), ("pack", pk), ("print", pr)]
+    -- pack(): modelled for chains of phase-1 classes; str()/dump(): modelled for every chain without an opaque (MPTCP) layer
+    let pk := if f.hasForeign then J.null else match packF none f with
+      | .ok b => J.ofBytes b
+      | .error e => excJ e.toString
+    let pr := match printF cfg f with
+      | .ok _ => J.str "ok"
+      | .error (.unmodelled _) => J.null
+      | .error e => excJ e.toString
+    J.mk [("chain", J.arr (chainJ f)), ("foreign", J.bool f.hasForeign), ("pack", pk), ("print", pr)]
 
 def handle (j : J) : Except String J := do
   let op ← j.string "op"
